@@ -14,8 +14,8 @@ if ! git apply --check "$D/patch.diff" 2>/dev/null; then echo "RESULT patch-does
 DEMO=$(ls "$D" | grep -E '^demo\.' | head -1)
 run_demo() {
   case "$DEMO" in
-    demo.rs) cp "$D/demo.rs" abasic-core/tests/seed_demo.rs; timeout 600 cargo test --offline -q -p abasic-core --test seed_demo >/tmp/confirm-demo-$$.log 2>&1; rc=$?; rm -f abasic-core/tests/seed_demo.rs; return $rc;;
-    demo.sh) timeout 600 sh "$D/demo.sh" "$W" >/tmp/confirm-demo-$$.log 2>&1; return $?;;
+    demo.rs) CR=$(grep -oE 'abasic-(core|lsp|web|cli)/tests/' "$D/README.md" | head -1 | cut -d/ -f1); CR=${CR:-abasic-core}; mkdir -p $CR/tests; cp "$D/demo.rs" $CR/tests/seed_demo.rs; timeout 900 cargo test --offline -q -p $CR --test seed_demo >/tmp/confirm-demo-$$.log 2>&1; rc=$?; rm -f $CR/tests/seed_demo.rs; return $rc;;
+    demo.sh) timeout 900 bash "$D/demo.sh" "$W" >/tmp/confirm-demo-$$.log 2>&1; return $?;;
     demo.py) timeout 600 python3 "$D/demo.py" "$W" >/tmp/confirm-demo-$$.log 2>&1; return $?;;
     *) echo "no demo"; return 99;;
   esac
